@@ -960,6 +960,11 @@ def gen(repo, outdir, selftest_out=None):
         lines.append("def derivationsChecked : Bool := true")
         # the base-class record __eq__ must not be a usable equality
         # DNSEntry.__eq__ guard
+        # known-answer suppression on the DNSOutgoing.add_answer path compares by identity (`self == other`) first
+        sba = single_return(find_def(dns, "DNSRecord._suppressed_by_answer"))
+        if not (isinstance(sba, ast.BoolOp) and isinstance(sba.op, ast.And) and len(sba.values) == 2
+                and ast.unparse(sba.values[0]) == "self == other"):
+            raise Fail("DNSRecord._suppressed_by_answer is no longer `self == other and <ttl test>`: " + ast.unparse(sba), sba)
         eeq = single_return(find_def(dns, "DNSEntry.__eq__"))
         if ast.unparse(eeq) != "isinstance(other, DNSEntry) and self._dns_entry_matches(other)":
             raise Fail("DNSEntry.__eq__ changed: " + ast.unparse(eeq), eeq)
